@@ -106,12 +106,12 @@ func (t TypeMap) IsAnonymous() bool {
 // Note that map keys will must always be some type which is representable as a
 // string in the IPLD Data Model (e.g. either TypeString or TypeEnum).
 func (t TypeMap) KeyType() Type {
-	return t.universe.namedTypes[t.keyType]
+	return t.universe.typeByName(t.keyType)
 }
 
 // ValueType returns the Type of the map values.
 func (t TypeMap) ValueType() Type {
-	return t.universe.namedTypes[t.valueType]
+	return t.universe.typeByName(t.valueType)
 }
 
 // ValueIsNullable returns a bool describing if the map values are permitted
@@ -129,7 +129,7 @@ func (t TypeList) IsAnonymous() bool {
 
 // ValueType returns to the Type of the list values.
 func (t TypeList) ValueType() Type {
-	return t.universe.namedTypes[t.valueType]
+	return t.universe.typeByName(t.valueType)
 }
 
 // ValueIsNullable returns a bool describing if the list values are permitted
@@ -142,7 +142,7 @@ func (t TypeList) ValueIsNullable() bool {
 func (t TypeUnion) Members() []Type {
 	a := make([]Type, len(t.members))
 	for i := range t.members {
-		a[i] = t.universe.namedTypes[t.members[i]]
+		a[i] = t.universe.typeByName(t.members[i])
 	}
 	return a
 }
@@ -210,7 +210,7 @@ func (f StructField) Name() string { return f.name }
 
 // Type returns the Type of this field's value.  Note the field may
 // also be unset if it is either Optional or Nullable.
-func (f StructField) Type() Type { return f.parent.universe.namedTypes[f.typ] }
+func (f StructField) Type() Type { return f.parent.universe.typeByName(f.typ) }
 
 // IsOptional returns true if the field is allowed to be absent from the object.
 // If IsOptional is false, the field may be absent from the serial representation
@@ -289,5 +289,5 @@ func (t TypeLink) HasReferencedType() bool {
 
 // ReferencedType returns the type hint for the node on the other side of the link
 func (t TypeLink) ReferencedType() Type {
-	return t.universe.namedTypes[t.referencedType]
+	return t.universe.typeByName(t.referencedType)
 }
